@@ -6,6 +6,7 @@ import Decaf.Props.C07
 import Decaf.Lemmas.Formulas.ArkElligator
 import Decaf.Lemmas.Formulas.MinElligator
 import Decaf.Lemmas.Formulas.MinAdd
+import Decaf.Lemmas.Formulas.HashToCurve
 
 namespace C07.Translated
 open Model Edwards Decaf
@@ -39,9 +40,31 @@ theorem hash_to_curve_mincode (h : SRContract sr) (r1 r2 : ℕ) :
   obtain ⟨c1, c2, p1, p2, h1, h2, e1, e2, ha, _, hev⟩ := C07.hash_to_curve_eq h r1 r2
   exact ⟨c1, c2, p1, p2, h1, h2, e1, e2, ha, hev⟩
 
+/-- the translated body of `hash_to_curve` itself (arkworks build): total, and the group sum of the two one-input images -/
+theorem hash_to_curve_body_arkcode (h : SRContract sr) (r1 r2 : ℕ) :
+    ∃ c1 c2 c p1 p2, Code.arkElligator sr r1 = some c1 ∧ Code.arkElligator sr r2 = some c2 ∧ ERepr c1 p1 ∧ ERepr c2 p2 ∧
+      Code.arkHashToCurve sr r1 r2 = some c ∧ ERepr c (p1 + p2) ∧ Point.IsEven (p1 + p2) := by
+  rw [Code.arkElligator_eq, Code.arkHashToCurve_eq]
+  obtain ⟨c1, c2, p1, p2, h1, h2, e1, e2, _, hr, hev⟩ := C07.hash_to_curve_eq h r1 r2
+  refine ⟨c1, c2, Ext.addRef c1 c2, p1, p2, h1, h2, e1, e2, ?_, hr, hev⟩
+  show hashToCurve sr ZETA Ext.addRef r1 r2 = _
+  unfold hashToCurve; rw [h1, h2]; rfl
+
+/-- the translated body of `hash_to_curve` itself (minimal build) -/
+theorem hash_to_curve_body_mincode (h : SRContract sr) (r1 r2 : ℕ) :
+    ∃ c1 c2 c p1 p2, Code.minElligator sr r1 = some c1 ∧ Code.minElligator sr r2 = some c2 ∧ ERepr c1 p1 ∧ ERepr c2 p2 ∧
+      Code.minHashToCurve sr r1 r2 = some c ∧ ERepr c (p1 + p2) ∧ Point.IsEven (p1 + p2) := by
+  rw [minElligator_eq', Code.minHashToCurve_eq, zeta_min_eq]
+  obtain ⟨c1, c2, p1, p2, h1, h2, e1, e2, hm, _, hev⟩ := C07.hash_to_curve_eq h r1 r2
+  refine ⟨c1, c2, Ext.addMin c1 c2, p1, p2, h1, h2, e1, e2, ?_, hm, hev⟩
+  show hashToCurve sr ZETA Ext.addMin r1 r2 = _
+  unfold hashToCurve; rw [h1, h2]; rfl
+
 end C07.Translated
 
 instantiate_builds C07.Translated.eq_spec_arkcode ark
 instantiate_builds C07.Translated.eq_spec_mincode min
 instantiate_builds C07.Translated.builds_agree
 instantiate_builds C07.Translated.hash_to_curve_mincode min
+instantiate_builds C07.Translated.hash_to_curve_body_arkcode ark
+instantiate_builds C07.Translated.hash_to_curve_body_mincode min
